@@ -49,10 +49,12 @@ BOUNDS = {
              "radial minimum: 1..3 symbolic points as ndarray / Grid2DIrregular / Grid2D (1x2 masks), symbolic minima r_A, r_B > 0 of a base class and a "
              "subclass sharing the decorated method (config lookup stubbed) and the real autoconf lookup with minima 0.5 / 2.0; "
              "decorator stack to_array(transform(relocate)) with symbolic profile centre (translation) on Grid2D (1x2 masks) / Grid2DIrregular (<=2 points); "
+             "subclass inputs (aa.Grid2DIrregularUniform; trivial harness subclasses of Grid2D / Grid2DIrregular / Grid1D) through every decorator and "
+             "return kind: <=3 points, Grid1D length<=3, Grid2D masks of 1x1, 1x2, 2x2; "
              "histories: two grids with different symbolic coordinates on ONE mask geometry (separate equal mask objects) called A, B, A through "
              "to_array / to_grid / to_vector_yx / project_grid on the same profile: Grid1D masks of length<=3, Grid2D masks 1x2, 2x2, 1..3 irregular points",
     "thorough": "as quick with Grid2D masks of H*W<=9, Grid1D length<=5, irregular <=5 points, angle set {0,30,45,90,120,170,-100,200,-60}, projections of "
-                "2x2,2x3,3x2,3x3 grids (all masks up to 6 pixels), radial minimum with <=4 points and 2x2 Grid2D masks, stack with 2x2 masks / <=3 points, histories with Grid1D length<=4, Grid2D 2x3, <=4 points",
+                "2x2,2x3,3x2,3x3 grids (all masks up to 6 pixels), radial minimum with <=4 points and 2x2 Grid2D masks, stack with 2x2 masks / <=3 points, histories with Grid1D length<=4, Grid2D 2x3, <=4 points, subclass inputs with <=5 points / length<=5 / masks up to 2x3, 3x2",
 }
 OUTSIDE = [
     "grids stored natively (store_native=True inputs), over_sample decorator, to_projected",
@@ -258,11 +260,29 @@ DEC_KINDS = (("to_array", "scalar", "Array2D", "ArrayIrregular"), ("to_array", "
              ("to_vector_yx", "pair", "VectorYX2D", "VectorYX2DIrregular"), ("to_vector_yx", "list_pair", "VectorYX2D", "VectorYX2DIrregular"))
 
 
+_SUB = {}
+
+
+def _grid_cls(base, sub):
+    """grid class to instantiate: 'base' = the library class itself, 'user' = a trivial harness-defined subclass,
+    'lib' = the library's own public subclass (only Grid2DIrregularUniform(Grid2DIrregular) exists)"""
+    import autoarray as aa
+    if sub == "base":
+        return getattr(aa, base)
+    if sub == "lib":
+        assert base == "Grid2DIrregular"
+        return aa.Grid2DIrregularUniform
+    key = (base, sub)
+    if key not in _SUB:
+        _SUB[key] = type("C17User" + base, (getattr(aa, base),), {"__doc__": "user subclass without any change of behaviour"})
+    return _SUB[key]
+
+
 def _ref_positions(mask):
     return [(i, j) for i in range(mask.shape[0]) for j in range(mask.shape[1]) if not mask[i, j]]
 
 
-def body_grid2d(inp, H, W, variant, scales):
+def body_grid2d(inp, H, W, variant, scales, sub="base"):
     import autoarray as aa
     _ensure_config()
     mask = np.array(inp["mask"], dtype=bool).reshape(H, W)
@@ -275,10 +295,12 @@ def body_grid2d(inp, H, W, variant, scales):
     osamp = aa.OverSamplingUniform(sub_size=2)
     if variant == "from_mask":
         grid = aa.Grid2D.from_mask(mask=m2, over_sampling=osamp)
+        if sub != "base":       # the from_mask classmethods build the base class: re-wrap the same coordinates in the subclass
+            grid = _grid_cls("Grid2D", sub)(values=_coords(grid).copy(), mask=m2, over_sampling=osamp)
         ref = [(oy + ((H - 1) / 2.0 - i) * sy, ox + (j - (W - 1) / 2.0) * sx) for (i, j) in pos]
     else:
         g = np.asarray(inp["g"]).reshape(-1, 2)[:n]
-        grid = aa.Grid2D(values=g.copy(), mask=m2, over_sampling=osamp)
+        grid = _grid_cls("Grid2D", sub)(values=g.copy(), mask=m2, over_sampling=osamp)
         ref = [(g[k, 0], g[k, 1]) for k in range(n)]
     A, E = {}, {}
     for dec, kind, cls2d, _ in DEC_KINDS:
@@ -288,7 +310,7 @@ def body_grid2d(inp, H, W, variant, scales):
         res = hx.attempt(lambda: P().fn(grid))
         # what reached the user function: the input grid itself, coordinate k in slim order
         A[key + ".seen_type"] = log[-1]["type"] if log else None
-        E[key + ".seen_type"] = "Grid2D"
+        E[key + ".seen_type"] = _grid_cls("Grid2D", sub).__name__
         A[key + ".seen"] = log[-1]["coords"] if log else None
         E[key + ".seen"] = _pairs(_arr([r[0] for r in ref]), _arr([r[1] for r in ref]))
         A[key + ".calls"] = len(log)
@@ -322,21 +344,21 @@ def _sym_mask(ctx, shape, name="m"):
     return ctx.concrete_bools(m)
 
 
-def case_grid2d(ctx, H, W, variant, scales):
+def case_grid2d(ctx, H, W, variant, scales, sub="base"):
     mask = _sym_mask(ctx, (H, W))
     ctx.set_case(mask=mask.tolist())
     inputs = {"mask": mask, "origin": [V.real("oy"), V.real("ox")], "g": V.real_array("g", (H * W, 2)), "ftab": []}
-    hx.run_body(ctx, body_grid2d, inputs, {"H": H, "W": W, "variant": variant, "scales": scales}, validate_every=64)
+    hx.run_body(ctx, body_grid2d, inputs, {"H": H, "W": W, "variant": variant, "scales": scales, "sub": sub}, validate_every=64)
 
 
 # --------------------------------------------------------------------------- Grid2DIrregular
 
-def body_irregular(inp, N):
+def body_irregular(inp, N, sub="base"):
     import autoarray as aa
     _ensure_config()
     p = np.asarray(inp["p"]).reshape(N, 2)
     uf = UserFns(inp)
-    grid = aa.Grid2DIrregular(values=p.copy())
+    grid = _grid_cls("Grid2DIrregular", sub)(values=p.copy())
     ref = [(p[k, 0], p[k, 1]) for k in range(N)]
     ref_arr = _pairs(_arr([r[0] for r in ref]), _arr([r[1] for r in ref]))
     A, E = {}, {}
@@ -346,7 +368,7 @@ def body_irregular(inp, N):
         P = _profile("C17Profile", _user(uf, log, kind), [getattr(aa.grid_dec, dec)], centre=(0.0, 0.0), angle=30.0)
         res = hx.attempt(lambda: P().fn(grid))
         A[key + ".seen_type"] = log[-1]["type"] if log else None
-        E[key + ".seen_type"] = "Grid2DIrregular"
+        E[key + ".seen_type"] = _grid_cls("Grid2DIrregular", sub).__name__
         A[key + ".seen"] = log[-1]["coords"] if log else None
         E[key + ".seen"] = ref_arr
         A[key + ".calls"] = len(log)
@@ -363,9 +385,9 @@ def body_irregular(inp, N):
     return A, E
 
 
-def case_irregular(ctx, N):
+def case_irregular(ctx, N, sub="base"):
     inputs = {"p": V.real_array("p", (N, 2)), "ftab": []}
-    hx.run_body(ctx, body_irregular, inputs, {"N": N}, validate_every=1)
+    hx.run_body(ctx, body_irregular, inputs, {"N": N, "sub": sub}, validate_every=1)
 
 
 # --------------------------------------------------------------------------- Grid1D
@@ -428,7 +450,7 @@ def _profile_attrs(angle_value, centre):
     return attrs
 
 
-def body_grid1d(inp, N, variant, angle):
+def body_grid1d(inp, N, variant, angle, sub="base"):
     import autoarray as aa
     _ensure_config()
     mask = np.array(inp["mask"], dtype=bool).reshape(N)
@@ -440,10 +462,12 @@ def body_grid1d(inp, N, variant, angle):
     m1 = aa.Mask1D(mask=mask, pixel_scales=(ps,), origin=(o,))
     if variant == "from_mask":
         grid = aa.Grid1D.from_mask(mask=m1)
+        if sub != "base":
+            grid = _grid_cls("Grid1D", sub)(values=_coords(grid).copy(), mask=m1)
         xs = [o + (i - (N - 1) / 2.0) * ps for i in idx]
     else:
         xv = np.asarray(inp["x"]).reshape(-1)[:n]
-        grid = aa.Grid1D(values=xv.copy(), mask=m1)
+        grid = _grid_cls("Grid1D", sub)(values=xv.copy(), mask=m1)
         xs = [xv[k] for k in range(n)]
     A, E = {}, {}
     TOL = {}
@@ -601,13 +625,13 @@ def _sym_unit(ctx, name="a"):
     return [c, s]
 
 
-def case_grid1d(ctx, N, variant, angle):
+def case_grid1d(ctx, N, variant, angle, sub="base"):
     mask = _sym_mask(ctx, (N,))
     ctx.set_case(mask=mask.tolist())
     inputs = {"mask": mask, "origin": [V.real("o")], "x": V.real_array("x", (N,)), "ftab": []}
     if angle == "sym":
         inputs["cs"] = _sym_unit(ctx)
-    _run(ctx, body_grid1d, inputs, {"N": N, "variant": variant, "angle": angle}, validate_every=4)
+    _run(ctx, body_grid1d, inputs, {"N": N, "variant": variant, "angle": angle, "sub": sub}, validate_every=4)
 
 
 # --------------------------------------------------------------------------- project_grid on a Grid2D
@@ -1116,6 +1140,15 @@ def cases(tier):
     for N in range(1, (2 if quick else 3) + 1):
         out.append(("case_stack", {"kind": "irregular", "N": N, "rot": None}, NRA))
     out.append(("case_stack", {"kind": "grid2d", "N": 0, "rot": None, "H": 1 if quick else 2, "W": 2}, NRA if quick else dict(NRA, split=4)))
+    # subclass inputs: the library's Grid2DIrregularUniform and trivial user subclasses of the three grid types
+    for N in range(1, (3 if quick else 5) + 1):
+        out.append(("case_irregular", {"N": N, "sub": "lib"}))
+        out.append(("case_irregular", {"N": N, "sub": "user"}))
+        out.append(("case_grid1d", {"N": N, "variant": "free", "angle": "sym", "sub": "user"}))
+    out.append(("case_grid1d", {"N": 3, "variant": "from_mask", "angle": 30.0, "sub": "user"}))
+    for (H, W) in ([(1, 1), (1, 2), (2, 2)] if quick else [(1, 1), (1, 2), (2, 1), (2, 2), (2, 3), (3, 2)]):
+        out.append(("case_grid2d", {"H": H, "W": W, "variant": "free", "scales": [1.0, 1.0], "sub": "user"}))
+        out.append(("case_grid2d", {"H": H, "W": W, "variant": "from_mask", "scales": [2.0, 0.5], "sub": "user"}))
     # histories (A, B, A) of different grids on one mask geometry
     for N in range(1, (3 if quick else 4) + 1):
         out.append(("case_history", {"family": "grid1d", "N": N, "origin_mode": "conc"}))
